@@ -94,6 +94,18 @@ fn main() {
         Some("c06") => drive::<C06Engine>(&args),
         Some("c05r") => drive::<C05Real>(&args),
         Some("c05a") => drive::<C05Adv>(&args),
+        Some("shimprobe") => {
+            // hash iteration order on the main thread and on two fresh threads + shim counters
+            let a = simlib::seams::hash_order_probe();
+            let b = std::thread::spawn(simlib::seams::hash_order_probe).join().unwrap();
+            let c = std::thread::spawn(simlib::seams::hash_order_probe).join().unwrap();
+            println!(
+                "{}",
+                serde_json::json!({"shim": simlib::seams::shim_present(), "main": a, "t1": b, "t2": c,
+                                   "getrandom_calls": simlib::seams::getrandom_calls()})
+            );
+            0
+        }
         Some("trace") => trace_main(&args),
         Some("c11d") => drive::<simlib::io::C11DecodeEngine>(&args),
         Some("c20") => drive::<simlib::conc::C20Engine>(&args),
